@@ -32,17 +32,26 @@ theorem usual_arith_table (t1 t2 : IType) :
   | none => rw [hc] at h2; cases h2
   | some r => rw [hc] at h2; exact ⟨r, rfl, of_decide_eq_true h2⟩
 
-/-- … and it is literally the C type except that c2mir answers `unsigned long` where C says
-`unsigned long long` (`unsigned long` × `long long`; same representation on LP64). -/
+/-- … and it is literally the C type of 6.3.1.8, for every pair of integer types. -/
 theorem usual_arith_exact (t1 t2 : IType) :
-    ofCTy (arithmetic_conversion t1.toCTy t2.toCTy) = some (usualArith t1 t2) ∨
-    (ofCTy (arithmetic_conversion t1.toCTy t2.toCTy) = some .ulong ∧ usualArith t1 t2 = .ullong) := by
+    ofCTy (arithmetic_conversion t1.toCTy t2.toCTy) = some (usualArith t1 t2) := by
   have h := gen_usual_arith_exact
   rw [List.all_eq_true] at h
   have h1 := h t1 (IType.mem_all t1)
   rw [List.all_eq_true] at h1
   have h2 := h1 t2 (IType.mem_all t2)
   simpa using h2
+
+/-- The rule c2mir used before /repo 584db93a (`arithmetic_conversion`'s last branch kept the
+unsigned operand's own type): it answered `unsigned long` for `unsigned long` × `long long`, where
+C says `unsigned long long`.  Kept as a named OLD variant; the witness is replayed on the real code
+by corpus/C07/kf-ulong-llong-common-type.c (must pass now). -/
+def usualArithOld (t1 t2 : IType) : IType :=
+  if usualArith t1 t2 = .ullong ∧ (promote t1 = .ulong ∨ promote t2 = .ulong) ∧
+     (promote t1 = .llong ∨ promote t2 = .llong) then .ulong else usualArith t1 t2
+
+theorem usual_arith_old_wrong : usualArithOld .ulong .llong ≠ usualArith .ulong .llong ∧
+    sameRepr (usualArithOld .ulong .llong) (usualArith .ulong .llong) := by decide
 
 example : usualArith .uint .long = .long ∧ usualArith .int .uint = .uint ∧ usualArith .ulong .llong = .ullong ∧
     usualArith .schar .ushort = .int ∧ ¬ sameRepr .int .uint := by decide
